@@ -51,6 +51,18 @@ fn main() {
             let code = check::worker(g("--base"), g("--stream"), focus, g("--faults") == 1, g("--from"), g("--stride").max(1), g("--runs"), g("--emit") == 1);
             std::process::exit(code);
         }
+        "shrink" => {
+            std::process::exit(check::shrink_cmd(&args[2], &args[3]));
+        }
+        "crashprobe" => {
+            // one run with progress marks on stderr (VERIF_TRACE_PROGRESS set by the caller)
+            let focus = check::focus_of(&args[2]);
+            let faults = args[3] == "1";
+            let seed: u64 = args[4].parse().unwrap();
+            let d = gen::generate(seed, focus, faults);
+            let _ = exec::execute(&d);
+            std::process::exit(0);
+        }
         "selftest" => {
             let quick = args.iter().any(|a| a == "--quick");
             std::process::exit(check::selftest(quick));
